@@ -75,6 +75,45 @@ static int drv_shuffle(const Opts &o)
 			emit(std::string("stack.mixglue-equal ") + std::to_string(n) + " => " + ((s3 == s4) ? "1" : "0"));
 		}
 	}
+	// ---- quadratic-residuosity encoding: k players, stacks of TMCG_Cards
+	for (uint64_t c = 0; c < o.cases / 2 + 1; c++) {
+		size_t k = 1 + g.below(c % 4 == 0 ? 6 : 4), w = 1 + g.below(5);
+		unsigned bits = (c % 3 == 0) ? 10 : 32;
+		std::vector<TMCG_SecretKey> sks(k); TMCG_PublicKeyRing ring(k);
+		Z eight(8L);
+		for (size_t i = 0; i < k; i++) {
+			TMCG_SecretKey &sk = sks[i];
+			for (;;) { gen_bits(sk.p, g, bits); mpz_setbit(sk.p, bits - 1); mpz_setbit(sk.p, 0); mpz_setbit(sk.p, 1); mpz_nextprime(sk.p, sk.p); if (mpz_congruent_ui_p(sk.p, 3, 4)) break; }
+			do { gen_bits(sk.q, g, bits); mpz_setbit(sk.q, bits - 1); mpz_setbit(sk.q, 0); mpz_setbit(sk.q, 1); mpz_nextprime(sk.q, sk.q); } while (!mpz_congruent_ui_p(sk.q, 3, 4) || mpz_congruent_p(sk.p, sk.q, eight));
+			mpz_mul(sk.m, sk.p, sk.q); mpz_set_ui(sk.y, 1);
+			do mpz_add_ui(sk.y, sk.y, 1); while ((mpz_jacobi(sk.y, sk.m) != 1) || tmcg_mpz_qrmn_p(sk.y, sk.p, sk.q));
+			mpz_set(ring.keys[i].m, sk.m); mpz_set(ring.keys[i].y, sk.y);
+		}
+		SchindelhauerTMCG tmcg(16, k, w);
+		size_t n = 2 + g.below(8), index = g.below(k);
+		TMCG_Stack<TMCG_Card> s, s2, s3, s4; std::vector<size_t> types;
+		for (size_t i = 0; i < n; i++) {
+			TMCG_Card cd(k, w); size_t T = g.below(g.coin() ? 2 : (1UL << w));
+			if (g.coin()) tmcg.TMCG_CreateOpenCard(cd, ring, T); else { TMCG_CardSecret cs(k, w); tmcg.TMCG_CreatePrivateCard(cd, cs, ring, g.below(k), T); }
+			s.push(cd); types.push_back(T);
+		}
+		bool cyclic = (c % 3 == 1);
+		TMCG_StackSecret<TMCG_CardSecret> ss, ss2;
+		tmcg.TMCG_CreateStackSecret(ss, cyclic, ring, index, n);
+		for (size_t i = 0; i < ss.size(); i++) { std::string b1 = "["; for (size_t a = 0; a < k; a++) for (size_t b = 0; b < w; b++) { if (b1.size() > 1) b1 += ","; b1 += zs(&ss[i].second.b[a][b]); } b1 += "]";
+			emit("tmcg.secret " + std::to_string(k) + " " + std::to_string(w) + " " + std::to_string(index) + " " + b1 + " => 1"); }
+		tmcg.TMCG_MixStack(s, s2, ss, ring, g.coin());
+		auto open_all = [&](const TMCG_Stack<TMCG_Card> &st) { std::vector<size_t> out; for (size_t i = 0; i < st.size(); i++) { TMCG_CardSecret oc(k, w); for (size_t a = 0; a < k; a++) tmcg.TMCG_SelfCardSecret(st[i], oc, sks[a], a); out.push_back(tmcg.TMCG_TypeOfCard(oc)); } return out; };
+		{ std::vector<size_t> idx; for (size_t i = 0; i < n; i++) idx.push_back(ss[i].first); emit("stack.types " + idx_str(types) + " " + idx_str(idx) + " => " + idx_str(open_all(s2))); }
+		// a second shuffle by another player, and the glued secret
+		size_t index2 = g.below(k);
+		tmcg.TMCG_CreateStackSecret(ss2, (c % 6 == 1), ring, index2, n);
+		tmcg.TMCG_MixStack(s2, s3, ss2, ring, true);
+		{ std::vector<size_t> idx; for (size_t i = 0; i < n; i++) idx.push_back(ss[ss2[i].first].first); emit("stack.types " + idx_str(types) + " " + idx_str(idx) + " => " + idx_str(open_all(s3))); }
+		tmcg.TMCG_GlueStackSecret(ss, ss2, ring);
+		tmcg.TMCG_MixStack(s, s4, ss2, ring, true);
+		emit(std::string("stack.mixglue-equal ") + std::to_string(n) + " => " + ((s3 == s4) ? "1" : "0"));
+	}
 	// the importer's index check: exhaustive over all n^n vectors for n <= 4 (5 in thorough), random beyond
 	size_t maxn = thorough ? 5 : 4;
 	for (size_t n = 1; n <= maxn; n++) {
